@@ -37,7 +37,9 @@ RECURSIVE Expand(_,_)
 Expand(dur, i) == IF i > Len(dur) THEN <<>> ELSE [k \in 1..dur[i] |-> i] \o Expand(dur, i + 1)
 VoicingLaw(e) == LET F == Expand(e.dur, 1) IN
    /\ Len(e.nodata) = Len(F) /\ Len(e.msd_bits) = Len(e.dur)
-   /\ \A t \in 1..Len(F) : e.nodata[t] = ~(e.msd_bits[F[t]] > e.thr_bits)      \* voiced iff weight EXCEEDS the threshold
+   \* voiced iff the weight EXCEEDS the threshold; the threshold is the f32 value thr_bits (side 0) or a hair below (side -1) /
+   \* above (side 1) it - thresholds are f64 and need not be representable in f32
+   /\ \A t \in 1..Len(F) : e.nodata[t] = ~(e.msd_bits[F[t]] > e.thr_bits \/ (e.side = -1 /\ e.msd_bits[F[t]] = e.thr_bits))
 \* along an ascending threshold sweep of one utterance, voiced frames can only turn unvoiced
 Voicing == /\ IsEv("voicing") /\ VoicingLaw(Rec[l])
            /\ IF Rec[l].first THEN sweep' = <<Rec[l].thr_bits, Rec[l].nodata>>
